@@ -279,6 +279,23 @@ def family_inc(tier='quick'):
                 nodes.append('L1b')
             out.append(Desc(nodes, edges, ['X'], choices=ch, incompat=[('B1', 'L0')], choices_first=cf,
                             label=f'inc-option-also-derived-{int(cf)}{int(third)}'))
+    # a permanent node incompatible with a node that every option of an initially active choice derives (no admissible
+    # architecture: the space has to be reported infeasible); the same below a second choice (one branch infeasible)
+    for flip in (False, True):
+        for perm in ('X', 'A'):
+            pair = ('M', perm) if flip else (perm, 'M')
+            out.append(Desc(['X', 'A', 'P0', 'P1', 'M'], [('X', 'A'), ('P0', 'M'), ('P1', 'M')], ['X'],
+                            choices=[('C1', 'A', ['P0', 'P1'])], incompat=[pair], label=f'inc-permanent-vs-all-options-{perm}{int(flip)}'))
+        pair = ('M', 'X') if flip else ('X', 'M')
+        out.append(Desc(['X', 'A', 'B', 'Q0', 'Q1', 'P0', 'P1', 'M'], [('X', 'A'), ('X', 'B'), ('P0', 'M'), ('P1', 'M')], ['X'],
+                        choices=[('C1', 'B', ['Q0', 'Q1']), ('C2', 'Q1', ['P0', 'P1'])], incompat=[pair],
+                        label=f'inc-permanent-vs-all-options-nested-{int(flip)}'))
+    # an option incompatible with a node that every option of another choice derives, plus an unrelated third choice
+    # that is still open when the conflict is detected
+    out.append(Desc(['X', 'A', 'B', 'C', 'P0', 'P1', 'M', 'T', 'S', 'Q1', 'R0', 'R1'],
+                    [('X', 'A'), ('X', 'B'), ('X', 'C'), ('P0', 'M'), ('P1', 'M'), ('M', 'T')], ['X'],
+                    choices=[('C1', 'A', ['P0', 'P1']), ('C2', 'B', ['S', 'Q1']), ('C3', 'C', ['R0', 'R1'])],
+                    incompat=[('S', 'T')], label='inc-all-options-derive-with-open-third-choice'))
     # incompatibility with a start node / between two permanent nodes (infeasible space) / option vs permanent
     out.append(Desc(['A', 'B', 'P0', 'P1'], [('A', 'B')], ['A'], choices=[('C1', 'A', ['P0', 'P1'])],
                     incompat=[('A', 'P0')], label='inc-start-vs-option'))
